@@ -58,8 +58,14 @@ def generate(run_seed, tier):
         for i in others[:6]:
             hist.append({"id": i, "do": rh.choice(["build", "optimize", "compute", "optimize_nofuse"])})
         forms = [f for f in FORMS if rh.random() < 0.75] or ["optimized"]
+        # "history twin": the same query with exactly one knob / direction changed is planned first in the originating
+        # process; whatever the planner cached for it must not leak into what the target reports there
+        from sim.profiles.c08 import _sibling_candidates
+
+        twins = [r_ for d_, r_ in _sibling_candidates(rh, recipe) if d_.startswith("knob ") or d_.startswith("sort ascending")]
+        history_twin = twins[0] if twins and rh.random() < 0.7 else None
         return {"property": PROPERTY, "recipe": recipe, "history_recipe": W.prune(full, others) if others else None, "history": hist,
-                "forms": forms, "cache_cap": rh.choice([1, 2, 3, 10]), "gc_before_pickle": rh.random() < 0.5,
+                "forms": forms, "history_twin": history_twin, "cache_cap": rh.choice([1, 2, 3, 10]), "gc_before_pickle": rh.random() < 0.5,
                 "warm": rh.random() < 0.7}
     finally:
         ses.close()
@@ -98,6 +104,15 @@ def _execute(spec, ses):
         except Exception:
             pass
     recipe = spec["recipe"]
+    if spec.get("history_twin"):
+        try:
+            tp = W.build(spec["history_twin"], use_knobs=True)
+            for t_ in spec["history_twin"]["targets"]:
+                tp[t_].optimize()
+                ses.compute(tp[t_], refw, monitor=False, admission_check=False)
+            counters["history_twins"] = 1
+        except Exception:
+            pass
     pool = W.build(recipe, use_knobs=True)
     det = recipe.get("det", {})
     nontrivial = False
@@ -181,6 +196,8 @@ def shrink_candidates(spec):
 
     if spec.get("history_recipe"):
         yield dict(spec, history_recipe=None, history=[])
+    if spec.get("history_twin"):
+        yield dict(spec, history_twin=None)
     if len(spec["forms"]) > 1:
         for f in spec["forms"]:
             yield dict(spec, forms=[f])
